@@ -590,6 +590,8 @@ func NewPubSub(ctx context.Context, h host.Host, rt PubSubRouter, opts ...Option
 		}
 	}
 
+	verifOnNewPubSub(ps)
+
 	if ps.rpcLogger == nil {
 		ps.rpcLogger = slog.New(ps.logger.Handler().WithAttrs([]slog.Attr{slog.String("system", "pubsub/rpc")}))
 	}
